@@ -135,9 +135,11 @@ Inductive ending : Type :=
 Section Traj.
   Variable routers : N -> router.
   Variable accepts : N -> N -> bool.               (* host i has a listen binding for this destination *)
-  Variable topo : N -> N -> N -> option node.      (* router, slot, next-hop ip -> who gets the frame *)
+  (* hop number, router, slot, next-hop ip -> who gets the frame.  This is what ARP does; it may
+     depend on the moment (the hop number) because the ARP cache changes while the simulation runs *)
+  Variable topo : nat -> N -> N -> N -> option node.
 
-  Fixpoint traj (fuel : nat) (at_ : node) (p : pkt) : list hopobs * ending :=
+  Fixpoint traj (fuel : nat) (k : nat) (at_ : node) (p : pkt) : list hopobs * ending :=
     match fuel with
     | O => ([], EFuel)
     | S f =>
@@ -150,12 +152,12 @@ Section Traj.
             | Err _ => ([], ENoRoute r)
             | Ok ADrop => ([], ETtl r)
             | Ok (AForward slot nh p') =>
-                match topo r slot nh with
+                match topo k r slot nh with
                 | None => ([], ENoArp r)
                 | Some n' =>
                     match send_step (routers r) slot p' with
                     | Ok q =>
-                        let (l, e) := traj f n' q in
+                        let (l, e) := traj f (S k) n' q in
                         (mkHop r slot nh n' q :: l, e)
                     | Panic s => ([], EPanic r s)
                     | _ => ([], EFuel)
@@ -167,7 +169,7 @@ Section Traj.
 
   (* fuel = TTL (+1 for the final node) *)
   Definition trajectory (start : node) (p : pkt) : list hopobs * ending :=
-    traj (S (N.to_nat (p_ttl p))) start p.
+    traj (S (N.to_nat (p_ttl p))) O start p.
 End Traj.
 
 (* ---- a concrete configuration (what the harness builds) *)
@@ -233,8 +235,9 @@ Definition cfg_topo (c : cfg) (r slot nh : N) : option node :=
   | None => None
   end.
 
+(* ARP as it should be: the same answer at every moment *)
 Definition cfg_trajectory (c : cfg) (start : node) (p : pkt) : list hopobs * ending :=
-  trajectory (cfg_router c) (cfg_accepts c) (cfg_topo c) start p.
+  trajectory (cfg_router c) (cfg_accepts c) (fun _ => cfg_topo c) start p.
 
 (* the sending host: arp.rs:192-198 (off-subnet traffic goes to the default gateway) *)
 Definition host_next_hop (h : hcfg) (dst : N) : N :=
@@ -285,14 +288,27 @@ Fixpoint select {A} (k : N) (l : list (N * A)) : list A :=
 (* the UDP payload behind the 8-byte UDP header *)
 Definition udp_data (p : pkt) : list N := skipn 8 (p_body p).
 
-(* what the model expects for one datagram, given the first frame actually seen *)
-Definition expect_rest (c : cfg) (f0 : frame) : list frame * ending :=
+(* ARP as it was: the k-th forwarded frame went where the trace says; where the trace has no
+   further frame, ARP is expected to behave (a router may stay silent only if nobody owns the
+   next hop) *)
+Definition obs_topo (c : cfg) (rest : list frame) (k : nat) (r slot nh : N) : option node :=
+  match nth_error rest k with
+  | Some f => f_to f
+  | None => cfg_topo c r slot nh
+  end.
+
+(* what the model expects for one datagram, given the first frame actually seen and the
+   receivers of the following frames *)
+Definition expect_rest (c : cfg) (f0 : frame) (rest : list frame) : list hopobs * ending :=
   match f_to f0 with
   | None => ([], EFuel)
   | Some n0 =>
-      let (hs, e) := cfg_trajectory c n0 (f_pkt f0) in
-      (map (hop_frame c) hs, e)
+      trajectory (cfg_router c) (cfg_accepts c) (obs_topo c rest) n0 (f_pkt f0)
   end.
+
+(* did ARP hand every forwarded frame to the owner of the next-hop address on that network? *)
+Definition ideal_hops (c : cfg) (hs : list hopobs) : bool :=
+  forallb (fun h => onode_eqb (cfg_topo c (ho_router h) (ho_slot h) (ho_nh h)) (Some (ho_to h))) hs.
 
 Definition check_first (c : cfg) (d : dgram) (f0 : frame) : bool :=
   let h := cfg_hc c (d_src d) in
@@ -316,8 +332,8 @@ Definition check_dgram (c : cfg) (d : dgram) (fs : list frame) (xs : list rx) : 
       | [] => false
       | f0 :: rest =>
           check_first c d f0 &&
-          let (exp, e) := expect_rest c f0 in
-          frames_eqb rest exp &&
+          let (exp, e) := expect_rest c f0 rest in
+          frames_eqb rest (map (hop_frame c) exp) &&
           match e with
           | EDelivered j =>
               match xs with
@@ -345,6 +361,18 @@ Definition validate (c : cfg) (ds : list dgram)
   forallb (fun tf => fst tf <? lenN ds) fr &&
   forallb (fun tx => fst tx <? lenN ds) xs &&
   check_all c 0 ds fr xs.
+
+(* the same walk, reporting whether ARP behaved on every hop of every datagram *)
+Definition dgram_ideal (c : cfg) (fs : list frame) : bool :=
+  match fs with
+  | [] => true
+  | f0 :: rest => ideal_hops c (fst (expect_rest c f0 rest))
+  end.
+Fixpoint all_ideal (c : cfg) (k : N) (ds : list dgram) (fr : list (N * frame)) : bool :=
+  match ds with
+  | [] => true
+  | _ :: r => dgram_ideal c (select k fr) && all_ideal c (k + 1) r fr
+  end.
 
 (* does the model predict that some datagram kills the process?  (used for runs that died:
    the trace is lost with the process).  The first frame is reconstructed from the scenario. *)
